@@ -407,6 +407,51 @@ func checkC04(c *Ctx, r *Report) {
 			nMarkers++
 		}
 	})
+	// the loop-carried candidate list only ever shrinks
+	if listPhi != nil {
+		var listParam *ssa.Parameter
+		for _, p := range loopFn.Params {
+			if isEndpointSlice(p.Type()) {
+				listParam = p
+			}
+		}
+		var widen []string
+		for _, e := range listPhi.Edges {
+			switch x := e.(type) {
+			case *ssa.Parameter:
+				if x != listParam {
+					widen = append(widen, "another parameter")
+				}
+			case *ssa.MakeSlice:
+				// must be filled by copy(dst, param)
+				okCopy := false
+				for _, ref := range *x.Referrers() {
+					if cc := getCall(ref); cc != nil {
+						if bi, ok := cc.Value.(*ssa.Builtin); ok && bi.Name() == "copy" && cc.Args[0] == ssa.Value(x) && cc.Args[1] == ssa.Value(listParam) {
+							okCopy = true
+						}
+					}
+				}
+				if !okCopy {
+					widen = append(widen, "a fresh slice not copied from the candidate parameter")
+				}
+			case *ssa.Call:
+				if !isRemoverCall(x) {
+					widen = append(widen, "result of "+describeCall(&x.Call).String()+" at "+c.Pos(x.Pos()))
+				}
+			case *ssa.Phi:
+				// nested phi of the same variable
+			default:
+				widen = append(widen, e.String())
+			}
+		}
+		keyW := fname(loopFn) + ":candidate-list-only-shrinks"
+		if len(widen) > 0 {
+			r.Bad("C04-R2", keyW, listPhi.Pos(), "the loop-carried candidate list can be replaced or widened by something other than removing the tried endpoint: endpoints outside the request's candidate set can be dispatched to", widen...)
+		} else {
+			r.OK("C04-R2", keyW, listPhi.Pos(), "every value of the loop-carried list is the initial copy of the candidates or the result of removing the tried endpoint")
+		}
+	}
 	for _, site := range sites {
 		keyA := fname(loopFn) + ":cycle-removes-tried-endpoint"
 		if reachAvoiding(site, site, isRemoverCall) {
